@@ -332,6 +332,7 @@ void run_c04(sim::RunCtx& ctx) {
             uint32_t f = r.below(4);
             if (f == 0) sim::srcplan.eio_at_read = (int64_t)r.below(12); else if (f == 1) sim::srcplan.fail_at_seek = (int64_t)r.below(12); else if (f == 2) sim::srcplan.early_eof_at = (int64_t)r.below((uint32_t)img.size() + 1); else sim::srcplan.fopen_fail_at = 0;
         }
+        if (mode == 1 && (kind == 9 || r.below(10) == 0)) sim::srcplan.mmap_path_fault = 1 + (int)r.below(3);      // mmap path: open / fstat / mmap itself fails
         bool differential = r.below(4) == 0;
         sim::Rng r_before = r; sim::SrcPlan sp_before = sim::srcplan;
         uint64_t h1 = 1469598103934665603ull, h2 = h1;
@@ -360,7 +361,7 @@ namespace sim {
 void register_c04() {
     Property p;
     p.id = "C04"; p.level = "exploration";
-    p.rule = "one run = one hostile image derived from a valid one (peer- or carquet-written) by 1-3 storage faults: footer field mutation through the peer's Thrift value tree (boundary/random scalars, list length changes, dropped/renumbered/retyped fields, strings, nesting bombs up to 30000 levels, footer length), planted page-header/body inconsistencies emitted with coherent offsets (page type, sizes, crc, num_values, encodings, dictionary size, index bit width, level-block lengths), payload damage with verification off, lost/duplicated/spliced/zeroed blocks, truncation, bit flips, or pure garbage between valid magics; plus input-stream faults (EIO, failed seek, early EOF, fopen failure) on the fread path; each image is opened through the three transports and, if it opens, driven by a seeded history of every public reader call (out-of-range indices, exact-size caller buffers sized from the public schema accessors, batch reader, statistics/pruning, schema accessors, seeded release order); one evaluation = one API operation on a hostile handle; oracle: ASan/UBSan/guard pages, per-call tick budget c0 + c1*(image bytes + bytes granted by the allocator), error contract, ledger empty and all streams/mappings released";
+    p.rule = "one run = one hostile image derived from a valid one (peer- or carquet-written) by 1-3 storage faults: footer field mutation through the peer's Thrift value tree (boundary/random scalars, list length changes, dropped/renumbered/retyped fields, strings, nesting bombs up to 30000 levels, footer length), planted page-header/body inconsistencies emitted with coherent offsets (page type, sizes, crc, num_values, encodings, dictionary size, index bit width, level-block lengths), payload damage with verification off, lost/duplicated/spliced/zeroed blocks, truncation, bit flips, or pure garbage between valid magics; plus input-stream faults (EIO, failed seek, early EOF, fopen failure) on the fread path and failing open/fstat/mmap on the mmap path; each image is opened through the three transports and, if it opens, driven by a seeded history of every public reader call (out-of-range indices, exact-size caller buffers sized from the public schema accessors, batch reader, statistics/pruning, schema accessors, seeded release order); one evaluation = one API operation on a hostile handle; oracle: ASan/UBSan/guard pages, per-call tick budget c0 + c1*(image bytes + bytes granted by the allocator), error contract, ledger empty and all streams/mappings released";
     p.quick_runs = 60000; p.thorough_runs = 3000000;
     p.run = run_c04;
     p.assumptions = {"tick budget per API call: 4e6 + 3000 x (image bytes + 4096 + bytes granted to the library since the handle's transport was opened + live bytes) basic blocks; allocations above 64 MiB (or 256 MiB live) are refused by the simulated allocator, which bounds the budget",
